@@ -32,6 +32,47 @@ pub fn run(o: &Opts) {
             tr.emit(json!({"ev":"pairs","k":k,"t":t,"pairs":chunk.iter().map(|p| p.to_vec()).collect::<Vec<_>>()}));
         }
     }
+    direct(&mut tr);
     tr.emit(json!({"ev":"end"}));
     println!("events={}", tr.finish());
+}
+
+/// Every (dest, src) pair of small slabs - equal indices and indices one and two past the end included - is
+/// requested from the public paired borrow directly, with and without a reorder mapping.  The call either refuses
+/// (panic) or returns two slices; what is logged is the outcome, the hook's record and where the returned slices
+/// really lie relative to the slab's storage.  Nothing is read or written through the returned slices.
+fn direct(tr: &mut Trace) {
+    use raptorq::SymbolSlab;
+    crate::util::quiet_panics();
+    for (count, ss) in [(1usize, 1usize), (2, 3), (3, 4), (4, 7), (5, 16), (3, 64)] {
+        let ident: Vec<usize> = (0..count).collect();
+        let rev: Vec<usize> = (0..count).rev().collect();
+        let rot: Vec<usize> = (0..count).map(|i| (i + 1) % count).collect();
+        for (mi, map) in [None, Some(rev), Some(rot)].into_iter().enumerate() {
+            let mut slab = SymbolSlab::with_zeros(count, ss);
+            let base = slab.get(0).as_ptr() as usize;
+            let phys = map.clone().unwrap_or_else(|| ident.clone());
+            if let Some(m) = &map {
+                slab.set_reorder(m.clone());
+            }
+            let mut calls = vec![];
+            for dest in 0..count + 2 {
+                for src in 0..count + 2 {
+                    raptorq::verif::slab_observe(true);
+                    let r = std::panic::catch_unwind(std::panic::AssertUnwindSafe(|| {
+                        let (d, s) = slab.get_pair_mut(dest, src);
+                        (d.as_ptr() as usize, d.len(), s.as_ptr() as usize, s.len())
+                    }));
+                    let evs = raptorq::verif::slab_take_events();
+                    raptorq::verif::slab_observe(false);
+                    let (res, ret) = match r {
+                        Ok((dp, dl, sp, sl)) => ("ok", json!([dp as i64 - base as i64, dl, sp as i64 - base as i64, sl])),
+                        Err(_) => ("panic", json!([])),
+                    };
+                    calls.push(json!({"dest":dest,"src":src,"res":res,"ret":ret,"hook":evs.iter().map(|p| p.to_vec()).collect::<Vec<_>>()}));
+                }
+            }
+            tr.emit(json!({"ev":"direct","count":count,"ss":ss,"mapping":mi,"phys":phys,"calls":calls}));
+        }
+    }
 }
